@@ -111,14 +111,14 @@ def sampleMedian (T : Tun) (t : Tab) : Nat := medianOf (t.sample T)
 def resize (hash : Nat → Nat) (t : Tab) : Tab :=
   t.activeIdx.foldl (fun n i => (n.internalAdjustOrInsert hash (t.key i) (t.val i)).1) (mk' (t.lgCur + 1) t.lgMax)
 
-/-- `adjust_or_insert` + `resize_or_purge_if_needed`; `choose median` is the purge amount actually used
-    (the code: `choose = id`). Returns the new table and the amount added to the offset. -/
-def adjustOrInsert (T : Tun) (hash : Nat → Nat) (choose : Nat → Nat) (t : Tab) (k v : Nat) : Tab × Nat :=
+/-- `adjust_or_insert` + `resize_or_purge_if_needed`; `choose sample` is the purge amount actually used
+    (the code: `choose = medianOf`). Returns the new table and the amount added to the offset. -/
+def adjustOrInsert (T : Tun) (hash : Nat → Nat) (choose : List Nat → Nat) (t : Tab) (k v : Nat) : Tab × Nat :=
   let (t1, isNew) := t.internalAdjustOrInsert hash k v
   if isNew && decide (t1.numActive > capacity T t1.lgCur) then
     if t1.lgCur < t1.lgMax then (t1.resize hash, 0)
     else
-      let a := choose (t1.sampleMedian T)
+      let a := choose (t1.sample T)
       (t1.subtractAndKeepPositiveOnly a, a)
   else (t1, 0)
 
@@ -145,20 +145,20 @@ def init2 (T : Tun) (lgMax lgStart : Nat) : St2 :=
   { tab := Tab.mk' (max lgStart T.lgMin) (max lgMax T.lgMin), offset := 0, total := 0 }
 
 /-- `update`; returns the new state and the purge amount used (0 = no purge) -/
-def update2 (T : Tun) (hash : Nat → Nat) (choose : Nat → Nat) (s : St2) (k w : Nat) : St2 × Nat :=
+def update2 (T : Tun) (hash : Nat → Nat) (choose : List Nat → Nat) (s : St2) (k w : Nat) : St2 × Nat :=
   if w = 0 then (s, 0) else
   let (t', a) := s.tab.adjustOrInsert T hash choose k w
   ({ tab := t', offset := s.offset + a, total := s.total + w }, a)
 
 /-- replay of a list of counters; returns the L1 replay entries (with the purge amounts used) in reverse order -/
-def replay2 (T : Tun) (hash : Nat → Nat) (choose : Nat → Nat) : St2 → List (Nat × Nat) → List (Ent Nat) → St2 × List (Ent Nat)
+def replay2 (T : Tun) (hash : Nat → Nat) (choose : List Nat → Nat) : St2 → List (Nat × Nat) → List (Ent Nat) → St2 × List (Ent Nat)
   | s, [], log => (s, log)
   | s, (k, w) :: t, log =>
     let (s', a) := update2 T hash choose s k w
     replay2 T hash choose s' t ((k, w, a) :: log)
 
 /-- `merge(other)`; also returns the replay list handed to the L1 model -/
-def merge2 (T : Tun) (hash : Nat → Nat) (choose : Nat → Nat) (s o : St2) : St2 × List (Ent Nat) :=
+def merge2 (T : Tun) (hash : Nat → Nat) (choose : List Nat → Nat) (s o : St2) : St2 × List (Ent Nat) :=
   if o.tab.numActive = 0 then (s, []) else
   let (r, log) := replay2 T hash choose s (o.tab.iterOrder T) []
   ({ r with offset := r.offset + o.offset, total := s.total + o.total }, log.reverse)
@@ -167,7 +167,7 @@ def merge2 (T : Tun) (hash : Nat → Nat) (choose : Nat → Nat) (s o : St2) : S
 def roundtrip2 (T : Tun) (hash : Nat → Nat) (s : St2) : St2 :=
   if s.tab.numActive = 0 then { tab := Tab.mk' s.tab.lgCur s.tab.lgMax, offset := 0, total := 0 } else
   let fresh : St2 := { tab := Tab.mk' s.tab.lgCur s.tab.lgMax, offset := 0, total := 0 }
-  let (r, _) := replay2 T hash id fresh (s.tab.iterOrder T) []
+  let (r, _) := replay2 T hash medianOf fresh (s.tab.iterOrder T) []
   { r with offset := s.offset, total := s.total }
 
 /-- abstraction function L2 → L1 -/
